@@ -26,6 +26,8 @@ type C19Plan struct {
 	Keys   []string `json:"keys"` // parameter names (secret and non-secret spellings)
 	TLS    string   `json:"tls"`  // "" (none), "default" (a real client profile), "nosuch"
 	Conn   string   `json:"conn"`
+	TTL    string   `json:"ttl"`        // "" | a duration | something that does not parse (the submission then fails half-way)
+	Crash  int      `json:"crash_step"` // the node dies at its n-th file step during the submission (0: no crash), then restarts
 	Ops    []c19Op  `json:"ops"`
 	Shrink []string `json:"_shrink"`
 }
@@ -42,6 +44,10 @@ func genC19(seed uint64, tier string) any {
 	p.Keys = pool[:r.Range(1, 6)]
 	p.TLS = simnet.Pick(r, []string{"", "", "tlsc", "tlsc", "nosuch"})
 	p.Conn = simnet.Pick(r, []string{"unix", "tcp"})
+	p.TTL = simnet.Pick(r, []string{"", "", "", "1h", "soon", "-"})
+	if r.Bool(0.3) {
+		p.Crash = r.Range(1, 14)
+	}
 	n := r.Range(3, 9)
 	if tier == "thorough" {
 		n = r.Range(5, 16)
@@ -94,6 +100,19 @@ func runC19(t *testing.T, planAny any, res *simnet.Result) {
 		if p.TLS != "" {
 			req["tlsclient"] = p.TLS
 		}
+		if p.TTL != "" {
+			req["ttl"] = p.TTL
+		}
+		badTTL := p.TTL == "soon" || p.TTL == "-"
+		crashed := make(chan struct{}, 1)
+		if p.Crash > 0 {
+			ctl.CrashAt("during-submit", node.Alias()+"/", "", p.Crash, func() {
+				go func() {
+					node.Crash()
+					crashed <- struct{}{}
+				}()
+			})
+		}
 		line, _ := json.Marshal(req)
 		var transcript []string
 		leak := func(where, text string) {
@@ -113,8 +132,56 @@ func runC19(t *testing.T, planAny any, res *simnet.Result) {
 		leak("submit", ack+"\n"+final)
 		time.Sleep(500 * time.Millisecond)
 		simnet.Quiesce()
+		ctl.DisarmAll()
+		died := false
+		select {
+		case <-crashed:
+			died = true
+		default:
+		}
+		if !node.Up() {
+			died = true
+			select {
+			case <-crashed:
+			case <-time.After(5 * time.Second):
+			}
+		}
+		if died {
+			// killed in the middle of the submission: whatever it left on disk is loaded by the next incarnation, and
+			// nothing of it may be shown
+			time.Sleep(700 * time.Millisecond)
+			if err := node.Start(); err != nil {
+				res.Violate("harness", "restart: %v", err)
+				return
+			}
+			res.Add("fault_crash_during_submit", 1)
+		}
+		// whatever became of the submission: no answer to any listing shows a secret value
+		{
+			lc := node.Session(p.Conn)
+			_, _ = lc.Hello()
+			reply, err := lc.Cmd("work list", 20*time.Second)
+			lc.Close()
+			if err != nil {
+				res.Violate("c19:no-answer", "work list after the submission: %v", err)
+			} else {
+				leak("list-after-submit", reply)
+				res.Add("responses_scanned", 1)
+			}
+		}
 		mustRefuse := hasSecret && p.TLS == ""
 		switch {
+		case died:
+			if unit == "" {
+				// not acknowledged: nothing more is known about it
+				res.Add("probe_submit_not_acknowledged", 1)
+			}
+		case badTTL && !mustRefuse && p.TLS != "nosuch":
+			if unit != "" && !strings.HasPrefix(final, "ERROR") && !strings.HasPrefix(ack, "ERROR") {
+				res.Add("probe_bad_ttl_accepted", 1)
+			}
+			unit = "" // the submission failed (or its fate is not the subject here); only the listings matter
+			res.Add("probe_failed_submission", 1)
 		case mustRefuse:
 			if unit != "" || !strings.HasPrefix(ack, "ERROR") {
 				res.Violate("c19:secrets-without-tls-accepted", "remote submission with secret parameters %v and no TLS profile was accepted: %q", simnet.SortedKeys(secrets), trunc(ack))
